@@ -25,7 +25,8 @@ CHECKS = {
             "property-based testing (proptest over choice tapes) + constructed boundary/oversize cases; measured bytes vs reported lengths, two build profiles",
             "Generated valid packets and every separately encodable part (bodies, wills, all v5 property sets, protocol) are encoded; "
             "bytes written are compared with encode_len and with the remaining-length field parsed by the harness, through a Vec and "
-            "a one-byte-per-write sink. PUBLISH packets are sized exactly onto every header-width boundary; payloads and property "
+            "a one-byte-per-write sink, sinks accepting 1-5 bytes per call with and without their own vectored writes, sinks that are too "
+            "small (an error and a prefix, never Ok) and sinks that are interrupted every other call. PUBLISH packets are sized exactly onto every header-width boundary; payloads and property "
             "sections above the 4-byte limit must be refused with an error (no panic, nothing emitted). The whole run is repeated "
             "under a release build (no debug assertions / overflow checks) and the digests of all encodings are compared.",
             "No counterexample among the generated and constructed cases. The 268,435,455-byte accepted side is only built in the thorough tier. " + TRUST,
@@ -37,7 +38,10 @@ CHECKS = {
             "families (blocking, async, poll one-shot and one byte at a time with Pending and drop/re-create, bare headers). A panic "
             "(overflow checks and debug assertions are on in the relcheck profile), an abort (a signal handler dumps the parked "
             "case) or a transport polled beyond its call bound is a violation; the run is repeated under the release profile. The "
-            "thorough tier adds libFuzzer campaigns with AddressSanitizer and a Miri run of a fixed generated suite.",
+            "thorough tier adds libFuzzer campaigns with AddressSanitizer and a Miri run of a fixed generated suite. A metamorphic probe "
+            "renders the caller-held poll state (and a clone) with {:?} after every partial body delivery, once with the heap chunk it "
+            "will reuse pre-filled with 0xAA and once with 0x55: the two renderings must be identical (nothing observable may depend on "
+            "bytes the transport never delivered).",
             "Totality and termination are established for the explored inputs only (termination through call bounds). Out-of-bounds access and uninitialised reads are judged by ASan/Miri in the thorough tier only, on the inputs those runs execute. " + TRUST,
             "DESIGN.md §7 C03"),
     "C04": ("exploration",
@@ -86,7 +90,8 @@ CHECKS = {
             "Generated sequences of 1..8 valid packets are concatenated and decoded packet by packet with every front-end (blocking "
             "with two independent ways of advancing, async on a shared reader and over a scripted chunked transport with Pending, "
             "poll with a fresh state per packet); the decoded sequence, per-packet byte counts and the EOF report at the clean "
-            "boundary are compared with what was generated.",
+            "boundary are compared with what was generated. The same is done for sequences of re-spelled frames (long ack / DISCONNECT / "
+            "AUTH forms with an explicit empty property section, reason-only forms, shuffled properties; var-ints minimal).",
             "No counterexample among the generated (sequence, delivery) cases; 4-byte-header packets only in the thorough tier. " + TRUST,
             "DESIGN.md §7 C08"),
     "C09": ("exploration",
@@ -94,7 +99,9 @@ CHECKS = {
             "For generated valid packets the blocking encoder (twice), the async encoder into a Vec, an exactly sized Cursor, a "
             "one-byte-per-write sink and tape-scripted sinks (Accept(k)/Pending), and control byte ++ var-int ++ streamed body are "
             "compared byte for byte; the sinks are call-bounded so a spin is a deterministic failure. The boundary-size "
-            "constructions of C01 (header-width boundaries, 2 MiB property sections, > 16 MiB payloads) go through every entry point too.",
+            "constructions of C01 (header-width boundaries, 2 MiB property sections, > 16 MiB payloads, long lists) go through every entry "
+            "point too. Streaming body encoders additionally meet sinks with their own vectored writes and sinks that are interrupted "
+            "(ErrorKind::Interrupted) every other call.",
             "No counterexample among the generated (packet, sink script) pairs. " + TRUST,
             "DESIGN.md §7 C09"),
     "C10": ("exploration",
@@ -128,7 +135,8 @@ CHECKS = {
             "error, byte count consumed by the async decoder, and continuation through decode_with_protocol compared with the native "
             "decode; large CONNECTs (property sections around every width boundary and around the other family's largest possible "
             "CONNECT, v3 CONNECTs with up to five 65,535-byte fields) are included, and so are partly buffered CONNECTs: from the end "
-            "of the level byte on, every shorter buffer must already be refused in the same way. All 256 levels x about 150 protocol "
+            "of the level byte on, every shorter buffer must already be refused in the same way; and after a refusal by the poll "
+            "front-end the caller-held state still holds the whole body, from which the continuation yields the native CONNECT. All 256 levels x about 150 protocol "
             "names (every single-edit neighbour and padding of the legal ones) are checked against both families, all front-ends and Protocol::new.",
             "No counterexample among the generated CONNECTs; the grid is enumerated completely. " + TRUST,
             "DESIGN.md §7 C13"),
@@ -139,8 +147,10 @@ CHECKS = {
             "every position) into the async and poll decoders under one-shot and chunked delivery; a write error or zero-length "
             "write at every position into the async encoder and the streaming body encoders; boundary-size packets (16 KiB - 2 MiB "
             "payloads and property sections) get faults at field boundaries and at positions spread over the whole encoding. The "
-            "oracle is the injected kind itself, the prefix property of what the sink received, and a conversion table for the error types.",
-            "Positions are exhaustive for encodings up to 260 bytes and sampled (field boundaries + random) beyond; Interrupted / WouldBlock are excluded by convention. " + TRUST,
+            "oracle is the injected kind itself, the prefix property of what the sink received, and a conversion table for the error types. "
+            "One-shot failures (the transport fails once, consumes nothing and would continue; every kind including Interrupted and "
+            "WouldBlock) must be handed on by both decoders, after which the poll decoder, polled again, completes the packet.",
+            "Positions are exhaustive for encodings up to 260 bytes and sampled (field boundaries + random) beyond; Interrupted / WouldBlock are only used for one-shot failures. " + TRUST,
             "DESIGN.md §7 C14"),
     "C15": ("exploration",
             "exhaustive enumeration of the var-int domain (thorough: all 2^28 values) against a closed-form arithmetic model",
@@ -150,7 +160,8 @@ CHECKS = {
             "re-created at every Pending) and partial-write sinks, and compared with a closed-form model; the first invalid values and all 9,330 "
             "continuation-bit patterns of up to five bytes are checked for rejection / EOF classification. The readers inside packet "
             "bodies are observed through v5 packets whose property length is re-written in 1-4 bytes (exact consumption demanded "
-            "for the nine packet types in which the count is observable). In the thorough tier the "
+            "for the nine packet types in which the count is observable); both readers also meet transports that fail transiently in the "
+            "middle of an integer. In the thorough tier the "
             "finite domain is enumerated completely (evidence: exhaustive = true).",
             "The arithmetic model (base-128 little endian, width thresholds 2^7, 2^14, 2^21, 2^28) is trusted. Quick tier is a sample. " + TRUST,
             "DESIGN.md §7 C15"),
@@ -169,7 +180,9 @@ CHECKS = {
             "Every valid filter of C16's space: share-name/filter accessors must return the unique split computed by the harness, "
             "text round-trips, and equality, ordering (antisymmetric, transitive, Equal iff same text, partial_cmp = cmp) and hashing "
             "depend only on the text, including values built from separate allocations and by decoding a SUBSCRIBE; the same for "
-            "filters built around every Unicode scalar value and behind every ordered pair of prefix shapes.",
+            "filters built around every Unicode scalar value, behind every ordered pair of prefix shapes, of every depth 1..300 and deeper; "
+            "and over histories: with 300 / 66 k / 1.1 M (thorough 4.2 M) distinct filters alive, filters rebuilt from their text compare, "
+            "order and hash like the ones held.",
             "Pairs/triples are neighbours and pseudo-random partners inside enumeration blocks, not all pairs. " + TRUST,
             "DESIGN.md §7 C17"),
     "C18": ("exploration",
